@@ -277,6 +277,20 @@ Section C02Inst.
     fst (eval_c02 m c s w) = fst (eval_c02 m tt s w) /\ CInv0 (w_rec_ids w ++ used) (snd (eval_c02 m c s w)).
   Proof. intros used [] m s w _ _ _. split; [reflexivity|exact I]. Qed.
 
+  (* in the shapes Proofs/Pipeline.v asks for (those carry a guard and a NoDup premise that the
+     C02 instance does not need: its evaluator checks duplicate-freeness itself) *)
+  Lemma c02_cache_transparent' : forall s w, guard0 s -> NoDup (w_ids w) ->
+    fst (eval_c02 true tt s w) = fst (eval_c02 false tt s w).
+  Proof. intros. apply c02_cache_transparent. Qed.
+  Lemma c02_id_renaming' : forall (f : N -> N) m s w, guard0 s -> NoDup (w_ids w) ->
+    (forall x y, In x (w_ids w) -> In y (w_ids w) -> f x = f y -> x = y) ->
+    fst (eval_c02 m tt s (w_rename f w)) = fst (eval_c02 m tt s w).
+  Proof. intros. now apply c02_id_renaming. Qed.
+  Lemma c02_caches_sound' : forall used c m s w,
+    CInv0 used c -> (forall i, In i (w_rec_ids w) -> ~ In i used) -> guard0 s -> NoDup (w_ids w) ->
+    fst (eval_c02 m c s w) = fst (eval_c02 m tt s w) /\ CInv0 (w_rec_ids w ++ used) (snd (eval_c02 m c s w)).
+  Proof. intros. now apply c02_caches_sound. Qed.
+
   Lemma c02_CInv_mono : forall used used' c,
     (forall x, In x used -> In x used') -> CInv0 used c -> CInv0 used' c.
   Proof. intros. exact I. Qed.
@@ -296,7 +310,7 @@ Section C02Inst.
   Proof.
     intros h h' s ctx us Hh Hh'.
     apply (caches_invisible_env vdecl value unit tt eval_c02 marshal marshal_err_cont H canon CInv0 guard0
-             c02_CInv_mono c02_cache_transparent c02_id_renaming c02_caches_sound);
+             c02_CInv_mono c02_cache_transparent' c02_id_renaming' c02_caches_sound');
       [apply Inv0_Inv; assumption|apply Inv0_Inv; assumption|exact I].
   Qed.
 
@@ -308,7 +322,7 @@ Section C02Inst.
   Proof.
     intros h h' hist s ctx us Hh Hh'.
     apply (run_after_history vdecl value unit tt eval_c02 marshal marshal_err_cont H canon CInv0 guard0
-             c02_CInv_mono c02_cache_transparent c02_id_renaming c02_caches_sound);
+             c02_CInv_mono c02_cache_transparent' c02_id_renaming' c02_caches_sound');
       [apply Inv0_Inv; assumption|apply Inv0_Inv; assumption| |exact I].
     apply Forall_forall. intros x _. exact I.
   Qed.
@@ -321,7 +335,7 @@ Section C02Inst.
   Proof.
     intros h ha hb s ctx a b Hh Ha Hb Hn.
     apply (run_app vdecl value unit tt eval_c02 marshal marshal_err_cont H canon CInv0 guard0
-             c02_CInv_mono c02_cache_transparent c02_id_renaming c02_caches_sound);
+             c02_CInv_mono c02_cache_transparent' c02_id_renaming' c02_caches_sound');
       try (apply Inv0_Inv; assumption); [exact I|exact Hn].
   Qed.
 
